@@ -59,6 +59,7 @@ type job struct {
 	checks int
 	rseed  uint64
 	plan   string // replay plan file (optional)
+	procs  string // GOMAXPROCS for the runner (default 1)
 	out    string
 	res    *runnerResult
 	err    string
@@ -87,8 +88,12 @@ func runJob(b *world.Batch, prop string, j *job, known []string, extraEnv []stri
 		args = append(args, fmt.Sprintf("-rapid.checks=%d", j.checks), fmt.Sprintf("-rapid.seed=%d", j.rseed))
 	}
 	cmd := exec.Command(b.Runner, args...)
+	procs := "1"
+	if j.procs != "" {
+		procs = j.procs
+	}
 	cmd.Env = append(os.Environ(),
-		"GOMAXPROCS=1",
+		"GOMAXPROCS="+procs,
 		"VERIF_WORLD="+j.world.Spec.Name,
 		"VERIF_PROP="+prop,
 		"VERIF_MODE="+j.mode,
